@@ -177,6 +177,7 @@ class Gen:
         self.kinds: Dict[Tuple[str, Tuple[str, ...]], str] = {}
         self.init_sub: Dict[str, set] = {}
         self.reexported: set = set()
+        self.noinherit: set = set()      # classes that rebind a module-level name: never used as a base (see known finding 3)
         self.features: Dict[str, int] = {}
 
     def feat(self, k: str) -> None:
@@ -305,10 +306,14 @@ class Gen:
         if in_class:
             n_stmts = r.choice([0, 1, 1, 2, 2, 3, 4])
             kinds = ['def'] * 3 + ['alias'] * 3 + ['from'] * 2 + ['import_as'] + (['class'] * 2 if depth < 2 else []) + ['import']
+            if self.p_shadow > 0 and not self.simple:
+                kinds += ['shadow_from'] * 2
         else:
             n_stmts = r.randint(2, 7 if self.size != 'small' else 4)
             kinds = (['def'] * 2 + ['class'] * 4 + ['from'] * 6 + ['import'] * 2 + ['import_as'] * 3 + ['from_sub'] * 2
-                     + ['alias'] * 3 + (['star'] if r.random() < self.p_star else []))
+                     + ['alias'] * 3 + (['star'] * 2 if r.random() < self.p_star else []))
+        shadowed = False
+        has_nested = False
 
         def lookup(name: str) -> Optional[Value]:
             if name in scope:
@@ -336,12 +341,15 @@ class Gen:
             scope[n] = v
 
         def free_for_shadow() -> Optional[str]:
-            # a name bound in an enclosing scope (module or enclosing class) but not here
-            cands = [k for k in self.ns[m] if k not in scope]
-            for i in range(1, len(qual)):
-                cands += [k for k in self.cls_ns[(m, tuple(qual[:i]))] if k not in scope]
-            cands = [k for k in cands if not k.startswith('__')]
+            # a name bound at module level but not in this class body (the class body will rebind it)
+            cands = [k for k in self.ns[m] if k not in scope and not k.startswith('__')]
             return r.choice(cands) if cands else None
+
+        def mark_shadowing() -> None:
+            nonlocal shadowed, kinds
+            shadowed = True
+            kinds = [k for k in kinds if k != 'class']      # no nested class may see (in pydoctor) the rebound name
+            self.noinherit.add((m, tuple(qual)))
 
         if self.simple:
             kinds = [k for k in kinds if k not in ('alias', 'star')]
@@ -360,12 +368,14 @@ class Gen:
                     cands = []
                     for nm in visible_names():
                         v = lookup(nm)
+                        if self.is_class(v) and (v[1], v[2]) in self.noinherit:
+                            continue
                         if self.is_class(v):
                             cands.append((nm, v))
                         elif v is not None and v[0] == 'mod':
                             for a in self.attrs_of(v, imported):
                                 w = self.attr(v, a, imported)
-                                if self.is_class(w):
+                                if self.is_class(w) and (w[1], w[2]) not in self.noinherit:
                                     cands.append((nm + '.' + a, w))
                     if cands:
                         base, basev = r.choice(cands)
@@ -379,6 +389,34 @@ class Gen:
                 bind(n, ('obj', m, tuple(qual + [n])))
                 if in_class:
                     self.feat('nested_class')
+                    has_nested = True
+            elif k == 'shadow_from':
+                # class body: `from X import obj as T` where the module already binds T to another object, then `U = T`
+                if has_nested:
+                    continue
+                T = free_for_shadow()
+                if T is None:
+                    continue
+                vT = self.ns[m][T]
+                srcs = [(x, o) for x in allowed for o, v in self.ns[x].items()
+                        if not o.startswith('__') and v != vT]
+                if not srcs:
+                    continue
+                x, orig = r.choice(srcs)
+                level, modname = 0, x
+                rel = self.relative_form(m, x) if r.random() < 0.4 else None
+                if rel is not None:
+                    level, modname = rel
+                body.append(['from', level, modname, [[orig, T]]])
+                self.mark_imported(imported, x, m)
+                bind(T, self.ns[x][orig])
+                mark_shadowing()
+                self.feat('class_import_rebinds_module_name')
+                if r.random() < 0.85:
+                    U = self.fresh('a', 0.2)
+                    body.append(['alias', U, T])
+                    bind(U, scope[T])
+                    self.feat('class_alias_of_rebound_name')
             elif k == 'import' or k == 'import_as':
                 if not allowed:
                     continue
@@ -470,6 +508,21 @@ class Gen:
                 rel = self.relative_form(m, x) if r.random() < 0.5 else None
                 if rel is not None:
                     level, modname = rel
+                privs = [n for n in self.ns[x] if n.startswith('_') and not n.startswith('__')
+                         and n not in scope and n not in subnames]
+                if privs:
+                    self.feat('star_source_binds_private_names')
+                    if r.random() < 0.6:
+                        # the importer already binds one of the private names the star import must NOT copy
+                        pn = r.choice(privs)
+                        srcs = [(z, o) for z in allowed for o, v in self.ns[z].items()
+                                if not o.startswith('__') and v != self.ns[x][pn]]
+                        if srcs:
+                            z, o = r.choice(srcs)
+                            body.append(['from', 0, z, [[o, pn]]])
+                            self.mark_imported(imported, z, m)
+                            bind(pn, self.ns[z][o])
+                            self.feat('star_private_name_prebound')
                 body.append(['star', level, modname])
                 self.mark_imported(imported, x, m)
                 for n in names:
@@ -495,10 +548,11 @@ class Gen:
                     v = w
                 assert v is not None
                 target = None
-                if in_class and r.random() < self.p_shadow:
+                if in_class and not has_nested and r.random() < self.p_shadow * 0.5:
                     target = free_for_shadow()
                     if target is not None:
-                        self.feat('shadowing_alias')
+                        self.feat('class_alias_rebinds_module_name')
+                        mark_shadowing()
                 if target is None:
                     target = self.fresh('a', 0.2)
                 if target in scope:
